@@ -14,7 +14,8 @@ EXTENDS OnosV2Props, PathsSmall, Json, IOUtils
 CONSTANTS MaxCrashes, MaxConnEvents, MaxDevRestarts, MaxFailBursts,
           HandlerSeq,  \* handler names in the order they are used
           ConnSeq,     \* connection ids in the order they are used
-          MaxSteps     \* behaviours are cut (and exported) at this length
+          MaxSteps,    \* behaviours are cut (and exported) at this length
+          FineClients  \* northbound handlers take their two store calls as separate steps
 
 VARIABLES budget, sched
 
@@ -41,10 +42,12 @@ MCNext ==
             \/ Begin(c, id) /\ Keep /\ Step([k |-> "begin", c |-> c, id |-> IdStr(c, id)])
        \/ \E a \in DOMAIN infl : Exec(a) /\ Keep /\ Step([k |-> "exec", a |-> a])
        \/ \E n \in NextHandler, req \in Requests :
-            /\ ClientRequest(n, req) /\ Keep
+            /\ IF FineClients THEN ClientStart(n, req) ELSE ClientRequest(n, req)
+            /\ Keep
             /\ Step(IF req.kind = "change"
-                    THEN [k |-> "set", h |-> n, sync |-> req.sync, ch |-> req.ch]
-                    ELSE [k |-> "rollback", h |-> n, idx |-> req.rb])
+                    THEN [k |-> "set", h |-> n, sync |-> req.sync, ch |-> req.ch, fine |-> FineClients]
+                    ELSE [k |-> "rollback", h |-> n, idx |-> req.rb, fine |-> FineClients])
+       \/ \E n \in DOMAIN h : (ClientCreate(n) \/ ClientWatch(n)) /\ Keep /\ Step([k |-> "hexec", h |-> n])
        \/ \E t \in Targets :
             /\ budget.connused < Len(ConnSeq) /\ budget.conn > 0
             /\ LET id == ConnSeq[budget.connused + 1] IN
